@@ -348,7 +348,8 @@ def r04_10(cx):
         why = None
         try:
             for k in (1, 5, 63, 64, 70, 127, 254, 255):
-                got = teval(rr[0].ret, _model_atoms({}, {'state': {0: 0xAB00 | k}})) if len(rr) == 1 else None
+                sc0 = {} if nm == 'kind' else {'nfa::contiguous::State::kind(state)': k}      # sparse_trans_len may be spelled through kind()
+                got = teval(rr[0].ret, _model_atoms(sc0, {'state': {0: 0xAB00 | k}})) if len(rr) == 1 else None
                 if got != k:
                     why = why or '%s of a state whose kind byte is %d is %s' % (nm, k, got)
         except (Unsupported, EvalPanic, KeyError, TypeError) as e:
@@ -503,3 +504,37 @@ def r10_8(cx):
     rr = summarize(cx.facts, r)
     ok = len(rr) == 1 and not rr[0].conds and cstr(canon(rr[0].ret)) in ('self', 'core::ops::Range::Range{start: self.start, end: self.end}')
     cx.report('R10.8', r, 'range', ok, 'Span::range() is start..end' if ok else 'Span::range() = %s' % [cstr(canon(x.ret))[:100] for x in rr])
+
+
+# ------------------------------------------------------------------------------------------------- R13.8 iterator wrappers and constructors
+def r13_8(cx):
+    """the public iterator types of ahocorasick.rs are transparent wrappers (next() forwards unconditionally, so whatever the inner
+    iterator yields -- a match, an I/O error, the end -- is what the caller sees), and automaton::FindIter starts with no previous
+    match (an empty match at the start of any span is reported)"""
+    n = 0
+    for p, b in sorted(cx.facts.bodies.items()):
+        m = re.match(r"^<ahocorasick::(FindIter|FindOverlappingIter|StreamFindIter)<.*> as core::iter::Iterator>::next$", p)
+        if not m:
+            continue
+        cx.bodies_seen.add(p)
+        n += 1
+        rows = summarize(cx.facts, b)
+        ok = len(rows) == 1 and rows[0].end == 'return' and not rows[0].conds and not rows[0].stores() and cstr(canon(rows[0].ret)) == 'core::iter::Iterator::next(self.0)'
+        cx.report('R13.8', b, 'wrapper-next', ok, '%s::next forwards to the wrapped iterator unconditionally' % m.group(1) if ok else
+                  '%s::next does more than forwarding (decisions %s): items of the wrapped iterator can be dropped, retried or replaced' % (m.group(1), [cstr(c)[:70] for r in rows for c, v in r.conds][:3]))
+    cx.floor('R13.8', 'public iterator wrappers', n, 2)
+    f = cx.body("automaton::FindIter::<'a, 'h, A>::new")
+    rows = [r for r in summarize(cx.facts, f) if r.end == 'return']
+    why = None
+    oks = [r for r in rows if is_agg(r.ret, r'Result$', 'Ok')]
+    if not oks:
+        why = 'no successful path'
+    for r in oks:
+        it = r.ret[3]['0']
+        if not (it[0] == 'agg' and isinstance(it[3], dict) and is_agg(it[3].get('last_match_end'), r'Option$', 'None')):
+            why = why or 'a new FindIter starts with last_match_end = %s (an empty match at the start of the span would be taken for one that overlaps a previous match)' % tstr(canon(it[3].get('last_match_end')) if it[0] == 'agg' and isinstance(it[3], dict) else it, 80)
+        elif cstr(canon(it[3].get('input'))) != cstr(param_at(f, 2)) or cstr(canon(it[3].get('aut'))) != cstr(param_at(f, 1)):
+            why = why or 'a new FindIter does not keep the automaton / input it was given'
+        if len(r.conds) != 1:
+            why = why or 'construction depends on more than the start-state probe'
+    cx.report('R13.8', f, 'finditer-new', why is None, 'FindIter::new keeps (aut, input) and starts with last_match_end = None, depending only on the start-state probe' if why is None else why)
